@@ -28,6 +28,7 @@ type c09Gen struct {
 	fence  uint64
 	epoch  uint64
 	used   map[[2]string]bool
+	below  bool // prefer cut points below RetentionState.RetainedMaxSeq
 }
 
 func c09NewGen(rng *rand.Rand, ch *c09Chan) *c09Gen {
@@ -157,6 +158,23 @@ func (g *c09Gen) gen(family string) *c09Step {
 	ret := s.retOrZero()
 	if s.Ret != nil && ret.Physical < ret.Local && r.IntN(2) == 0 {
 		return g.commit(g.genTrim(s))
+	}
+	// Retention was adopted/trimmed while the log was longer than the cut
+	// floor: cut or replace the suffix below RetainedMaxSeq, so that the
+	// retention record has to follow the new log end (a later reopen recovers
+	// the log end from max(last row, RetainedMaxSeq)).
+	if s.Ret != nil && !g.ch.Typed && ret.RetainedMax > g.truncFloor(s) && r.IntN(5) == 0 {
+		g.below = true
+		var st *c09Step
+		if g.ch.Exact && r.IntN(3) > 0 {
+			st = g.genReplace(s)
+		} else {
+			st = g.genTruncate(s)
+		}
+		g.below = false
+		if st != nil {
+			return g.commit(st)
+		}
 	}
 	for tries := 0; tries < 50; tries++ {
 		v := r.IntN(100)
@@ -435,6 +453,13 @@ func (g *c09Gen) genTruncate(s *c09State) *c09Step {
 		if len(c) > 1 && r.IntN(2) == 0 {
 			to = c[len(c)-2] // drop exactly the tail proposal
 		}
+		if g.below {
+			if lo := g.belowRetained(s, c); len(lo) > 0 {
+				to = lo[r.IntN(len(lo))]
+			}
+		}
+	} else if g.below && s.retOrZero().RetainedMax > floor {
+		to = c09Between(r, floor, s.retOrZero().RetainedMax-1)
 	} else {
 		to = c09Between(r, floor, s.LEO)
 		if s.LEO > floor && r.IntN(2) == 0 {
@@ -442,6 +467,16 @@ func (g *c09Gen) genTruncate(s *c09State) *c09Step {
 		}
 	}
 	return &c09Step{Kind: "truncate", To: to, WithHist: r.IntN(2) == 0 && !g.ch.Typed}
+}
+
+func (g *c09Gen) belowRetained(s *c09State, cands []uint64) []uint64 {
+	var lo []uint64
+	for _, v := range cands {
+		if v+1 < s.retOrZero().RetainedMax {
+			lo = append(lo, v)
+		}
+	}
+	return lo
 }
 
 func (g *c09Gen) genTruncSplit(s *c09State) *c09Step {
@@ -563,6 +598,11 @@ func (g *c09Gen) genReplace(s *c09State) *c09Step {
 		return nil
 	}
 	keep := c[r.IntN(len(c))]
+	if g.below {
+		if lo := g.belowRetained(s, c); len(lo) > 0 {
+			keep = lo[r.IntN(len(lo))]
+		}
+	}
 	st := &c09Step{Kind: "replace", Keep: keep}
 	// removed suffix proposals (candidates for message / command reuse)
 	var removed []*c09Proposal
@@ -576,6 +616,9 @@ func (g *c09Gen) genReplace(s *c09State) *c09Step {
 		g.fence++
 	}
 	nNew := r.IntN(3)
+	if g.below {
+		nNew = r.IntN(2) // keep the replacement short so the log end stays below RetainedMaxSeq
+	}
 	base := keep
 	prev := s.Ents[keep]
 	for i := 0; i < nNew; i++ {
@@ -589,6 +632,8 @@ func (g *c09Gen) genReplace(s *c09State) *c09Step {
 			if r.IntN(2) == 0 {
 				cmd = removed[0].Man.CommandID
 			}
+		} else if g.below {
+			msgs = g.newMsgs(1, 1)
 		} else {
 			msgs = g.newMsgs(1, 3)
 		}
